@@ -2,6 +2,7 @@ package props
 
 import (
 	"pgregory.net/rapid"
+	"strings"
 
 	"verifharness/ev"
 	"verifharness/gen"
@@ -16,6 +17,22 @@ func newExecCase() any { return &gen.ExecCase{} }
 func scriptLabels(ec *gen.ExecCase, v *ev.Verdict) {
 	for _, f := range ec.Script.Features() {
 		v.Label("has:" + f)
+	}
+	if ec.Warm != nil {
+		v.Label("warm-up")
+	}
+	for _, d := range ec.Script.Vars {
+		if val, ok := ec.Vars[d.Name]; ok && (d.Type == "number" || d.Type == "monetary") {
+			digits := val
+			if i := strings.LastIndexByte(val, ' '); i >= 0 {
+				digits = val[i+1:]
+			}
+			digits = strings.TrimPrefix(digits, "-")
+			if len(digits) > 1 && digits[0] == '0' {
+				v.Label("zero-padded-variable")
+				break
+			}
+		}
 	}
 }
 
